@@ -177,8 +177,8 @@ type OInfo struct {
 // "<self>" (the switched interface value itself), "<new>" (a freshly built
 // node), "<const>" (a constant/other).
 type OriginCtx struct {
-	E     ssa.Value              // the case-bound node value
-	X     ssa.Value              // the switched interface value
+	E     ssa.Value // the case-bound node value
+	X     ssa.Value // the switched interface value
 	Model *NodeModel
 	Group map[*ssa.Function]bool // functions whose calls count as "transformed"
 }
